@@ -252,6 +252,43 @@ def f25_select_eq_ignores_quantity():
     return a == b and a.toJson() != b.toJson()
 
 
+def f26_count_transform_scalar_weight():
+    import numpy as np
+
+    h = hg.Branch(hg.Sum(lambda x: x), hg.Count(lambda w: 2 * w))
+    h.fill.numpy(np.arange(5.0))
+    return h.values[1].entries != 10.0
+
+
+def f27_cached_stale_after_exception():
+    from histogrammar.util import cached
+
+    def f(x):
+        if x == 2:
+            raise ValueError("bad record")
+        return x * 10
+
+    g = cached(f)
+    g(1)
+    try:
+        g(2)
+    except ValueError:
+        pass
+    try:
+        return g(2) == 10
+    except ValueError:
+        return False
+
+
+def f28_named_after_cached_string():
+    from histogrammar.util import cached, named
+
+    try:
+        return not (named("n", cached("x + y")) == cached(named("n", "x + y")))
+    except ValueError:
+        return True
+
+
 if __name__ == "__main__":
     present = 0
     for name, fn in sorted((k, v) for k, v in globals().items() if k.startswith("f") and k[1:3].isdigit()):
